@@ -10,6 +10,8 @@ from sa.facts import result_sites
 from sa.guards import GuardView, names_in
 from sa.index import own_nodes
 from sa.report import Ctx
+
+from .common import generic_sweeps
 from sa.rustfacts import RustFacts
 
 EXPLANATION = (
@@ -275,6 +277,7 @@ def run(ctx: Ctx):
     ctx.ob("C12-O5", "R18 routing", gb, "explicit 'python' never routes to rust; explicit 'rust' raises when unavailable", "if requested == 'python':\n        return 'python'" in tb and "raise ImportError" in tb, "", node=gb.node)
     ra = ctx.func("rust", "rust_adapter.decorator")
     ctx.ob("C12-O5", "R18 routing", ra, "rust_adapter registers the function under the given name and returns it unchanged", "_adapters[name] = fn" in ast.unparse(ra.node) and "return fn" in ast.unparse(ra.node), "", node=ra.node)
+    generic_sweeps(ctx)
 
 
 # ---------------------------------------------------------------------------------------------
